@@ -11,11 +11,18 @@ EXTENDS MCFile
 CONSTANTS Classes
 
 VARIABLE c
+Machines == (0..260) \cup {21569, 36902, 41872, 65535}
 Init == c = [stage |-> 0]
 Next == \/ c.stage = 0 /\ \E cl \in Classes, l \in BOOLEAN : c' = [stage |-> 1, class |-> cl, little |-> l]
         \/ c.stage = 1 /\ \E sy \in BOOLEAN, dy \in BOOLEAN, dn \in BOOLEAN, hs \in BOOLEAN, pd \in BOOLEAN :
                              /\ (hs => dy)      \* pd without dn: PT_DYNAMIC designates a plain PROGBITS section (no SHT_DYNAMIC)
-                             /\ c' = [c EXCEPT !.stage = 2] @@ [sy |-> sy, dy |-> dy, dn |-> dn, hs |-> hs, pd |-> pd]
+                             /\ c' = [c EXCEPT !.stage = 2] @@ [sy |-> sy, dy |-> dy, dn |-> dn, hs |-> hs, pd |-> pd, mach |-> 62, hz |-> 4]
+        \* the machine sweep: the richest object for EVERY e_machine value 0..260 (and a few beyond), with the entry size
+        \* of .hash as the gABI has it (4) and as the 64-bit Alpha / s390x supplements have it (8): no property mentions the
+        \* machine or that entry size, so no answer may depend on them
+        \/ c.stage = 1 /\ c.little /\ c.class = 64 /\ \E m \in Machines, hz \in {4, 8} :
+                             /\ ~(m = 62 /\ hz = 4)
+                             /\ c' = [c EXCEPT !.stage = 2] @@ [sy |-> TRUE, dy |-> TRUE, dn |-> TRUE, hs |-> TRUE, pd |-> TRUE, mach |-> m, hz |-> hz]
 
 SymBytes(class, little) ==
     Enc("sym", class, little, [st_name |-> W4(0), st_value |-> W8(0), st_size |-> W8(0), st_info |-> <<0>>, st_other |-> <<0>>, st_shndx |-> W2(0)]) \o
@@ -35,6 +42,21 @@ SecList ==
      ELSE IF c.pd THEN << Sec(<<46, 100, 98>>, 1, DynBytes(c.class, c.little)) >> ELSE <<>>) \o
     (IF c.hs THEN << [Sec(<<46, 104>>, 5, HashBytes(c.little)) EXCEPT !.link = 3, !.entsize = 4] >> ELSE <<>>) \o
     << Sec(<<46, 116>>, 1, <<9>>), Sec(<<46, 255, 254>>, 9, Zeros(CSize("rel", c.class))), Sec(<<46, 116>>, 7, <<>>) >>
+\* the sweep objects are ONE constant object (built once) with two header fields overwritten
+RichSecs ==
+    << NullSec, Sec(<<46, 115, 104>>, 3, <<>>), Sec(<<46, 100, 115>>, 3, <<0, 97, 98, 0>>),
+       [Sec(<<46, 100, 121>>, 11, SymBytes(64, TRUE)) EXCEPT !.link = 2, !.entsize = CSize("sym", 64)],
+       [Sec(<<46, 115, 121>>, 2, SymBytes(64, TRUE)) EXCEPT !.link = 2, !.entsize = CSize("sym", 64)],
+       Sec(<<46, 116, 120>>, 1, <<1, 2, 3>>),
+       [Sec(<<46, 100>>, 6, DynBytes(64, TRUE)) EXCEPT !.entsize = CSize("dyn", 64), !.link = 2],
+       [Sec(<<46, 104>>, 5, HashBytes(TRUE)) EXCEPT !.link = 3, !.entsize = 4],
+       Sec(<<46, 116>>, 1, <<9>>) >>
+RichBase == BuildObj(64, TRUE, RichSecs, << [type |-> 2, flags |-> 6, sec |-> 6, off |-> 0, filesz |-> 0, memsz |-> 0, align |-> 8] >>,
+                     [DefaultOpts EXCEPT !.shstrndx = 1])
+RichShoff == Val(SubSeq(RichBase, 41, 48))
+PutB(b, off, w) == [i \in 1..Len(b) |-> IF i > off /\ i <= off + Len(w) THEN w[i - off] ELSE b[i]]
+SweepFile(m, hz) == PutB(PutB(RichBase, 18, W2(m)), RichShoff + 7 * 64 + 56, W8(hz))
+
 DynIdx == CHOOSE i \in 0..(Len(SecList) - 1) : SecList[i + 1].type = 6 \/ SecList[i + 1].name = <<46, 100, 98>>
 SegList == IF c.pd THEN << [type |-> 2, flags |-> 6, sec |-> DynIdx, off |-> 0, filesz |-> 0, memsz |-> 0, align |-> 8] >> ELSE <<>>
 
@@ -78,6 +100,22 @@ NameSeq == S2S(QNames)
 Qs == << [name |-> "find_common_data", names |-> <<>>], [name |-> "symbol_table"], [name |-> "dynamic_symbol_table"], [name |-> "dynamic"] >> \o
       [i \in 1..Cardinality(QNames) |-> [name |-> "shdr_by_name", qname |-> NameSeq[i]]] \o
       [k \in 1..(4 * N) |-> [name |-> Views[((k - 1) % 4) + 1][1], shdr |-> ShdrAt(f, eb, (k - 1) \div 4)]]
-Emit == PrintT(ToJson(Session(FileB, "Any", Qs, [family |-> "mc-paths"])))
-Inv == c.stage = 2 => (Prop_C20 /\ Emit)
+\* (the sweep objects differ from each other in two header fields only: the first four queries are replayed)
+IsSweep == c.mach # 62 \/ c.hz # 4
+SweepQs == << [name |-> "find_common_data", names |-> <<>>], [name |-> "symbol_table"], [name |-> "dynamic_symbol_table"], [name |-> "dynamic"] >>
+Emit == IF IsSweep THEN PrintT(ToJson(Session(SweepFile(c.mach, c.hz), "Any", SweepQs, [family |-> "mc-paths", mach |-> c.mach, hz |-> c.hz])))
+        ELSE PrintT(ToJson(Session(FileB, "Any", Qs, [family |-> "mc-paths"])))
+\* for the sweep objects: one-pass discovery designates every table the targeted accessors designate
+Prop_Sweep ==
+    LET ff == F(SweepFile(c.mach, c.hz))
+        ee == Open(ff, "Any")
+        cd == CommonData(ff, ee)
+        st == SymTab(ff, ee, SHT_SYMTAB) ds == SymTab(ff, ee, SHT_DYNSYM) dn == Dynamic(ff, ee, FALSE)
+    IN /\ ee.ok /\ cd.ok
+       /\ SubSeq(ff.bytes, 19, 20) = W2(c.mach) /\ Val(ShdrAt(ff, ee, 7)["sh_entsize"]) = c.hz /\ ShdrAt(ff, ee, 7)["sh_type"] = W4(5)
+       /\ st.out = "ok" /\ cd.symtab = st.sym /\ cd.symtab_strs = st.str
+       /\ ds.out = "ok" /\ cd.dynsyms = ds.sym /\ cd.dynsyms_strs = ds.str
+       /\ dn.out = "ok" /\ cd.dynamic.start = dn.start /\ cd.dynamic.len = dn.len
+       /\ cd.sysv_hash # <<>> /\ cd.gnu_hash = <<>>
+Inv == c.stage = 2 => ((IF IsSweep THEN Prop_Sweep ELSE Prop_C20) /\ Emit)
 =============================================================================
